@@ -7,7 +7,6 @@ import (
 	"fmt"
 	"sort"
 	"strings"
-	"time"
 	"unicode/utf8"
 
 	bs "github.com/danthegoodman1/bloomsearch"
@@ -248,7 +247,7 @@ func runC01(rc *RunCtx, i int) {
 		e := c.w.Eng[qr.Intn(len(c.w.Eng))]
 		rc.Res.Eval(1)
 		rc.Res.Count("queries", 1)
-		ctx, cancel := context.WithTimeout(context.Background(), 60*time.Second)
+		ctx, cancel := context.WithTimeout(context.Background(), core.Patience)
 		res := world.RunQuery(ctx, e, q)
 		cancel()
 		if refsem.CheckRegex(regexOf(q)) == refsem.RegexInvalid {
@@ -407,7 +406,7 @@ func runC02(rc *RunCtx, i int) {
 		}
 		rc.Res.Eval(1)
 		rc.Res.Count("queries", 1)
-		ctx, cancel := context.WithTimeout(context.Background(), 60*time.Second)
+		ctx, cancel := context.WithTimeout(context.Background(), core.Patience)
 		res := world.RunQuery(ctx, e, q)
 		cancel()
 		if res.QErr != nil || res.Err != nil {
